@@ -1046,6 +1046,9 @@ fn main() {
         }
         }
         let cfg = vgad::laws::Cfg::default();
+        if thorough {
+            cx.next_group_share(600.0);
+        }
         cx.run_cases("laws", &ljobs, |(c, k, rids)| {
             let mut out = CaseOut::batch();
             vgad::laws::explore(c, *k, rids, &cfg, &mut out);
